@@ -141,6 +141,12 @@ func Generate(seed uint64, id, family string) *sdl.Program {
 					kind = sdl.KIface
 				}
 				k := &sdl.Type{Name: id + "TK", Points: []*sdl.Point{{Field: "F0", Kind: kind, Iface: q, Sel: sdl.SelType, Optional: r.p(0.5)}}}
+				if r.p(0.6) {
+					// it also asks for the late definition by name, too early to find it; the lazy
+					// consumer asks for the same name once it exists
+					k.Points = append(k.Points, &sdl.Point{Field: "F1", Kind: pick(r, []string{sdl.KAny, sdl.KIface}), Iface: q, Sel: sdl.SelName, Name: "late", Optional: true})
+					z.Points = append(z.Points, &sdl.Point{Field: "F1", Kind: pick(r, []string{sdl.KAny, sdl.KIface}), Iface: q, Sel: sdl.SelName, Name: "late", Optional: r.p(0.4)})
+				}
 				p.Types = append(p.Types, k)
 				p.Instances = append(p.Instances, &sdl.Instance{ID: fmt.Sprintf("c%d", n+3), Type: k.Name})
 			}
